@@ -289,7 +289,7 @@ class Stream(meta(Iterable, metaclass=StreamMeta)):
       return constructor(self._data)
     if isinstance(n, float):
       n = rint(n) if n > 0 else 0 # So this works with -inf and nan
-    return constructor(next(self._data) for _ in xrange(n))
+    return constructor(it.islice(self._data, max(n, 0)))
 
   def copy(self):
     """
@@ -332,8 +332,8 @@ class Stream(meta(Iterable, metaclass=StreamMeta)):
 
     """
     def skipper(data):
-      for _ in xrange(int(round(n))):
-        next(data)
+      for _ in it.islice(data, max(int(round(n)), 0)):
+        pass
       for el in data:
         yield el
 
@@ -344,8 +344,7 @@ class Stream(meta(Iterable, metaclass=StreamMeta)):
     """
     Enforces the Stream to finish after ``n`` items.
     """
-    data = self._data
-    self._data = (next(data) for _ in xrange(int(round(n))))
+    self._data = it.islice(self._data, max(int(round(n)), 0))
     return self
 
   def __getattr__(self, name):
